@@ -216,7 +216,7 @@ func runC11(r *rt.Run, tier string) {
 	if faulty {
 		r.Stats["config.faulty"]++
 		N := len(armored)
-		const nSplice, nOther = 5, 9
+		const nSplice, nOther = 5, 10
 		total := 4*N + nSplice + nOther
 		fp := faultIndex(r, total, func() int {
 			switch t.Weighted([]int{6, 3, 2}, "fault.kind") {
@@ -352,6 +352,11 @@ func runC11(r *rt.Run, tier string) {
 				as := bytes.Index(alt, []byte("\n-----BEGIN PGP SIGNATURE-----")) + 1
 				data = append(append([]byte{}, armored[:sigStart]...), alt[as:]...)
 				fault = "signature-over-other-text"
+				mustFail, either = true, false
+			case 9: // two signature packets in the armor, both by the keyring key: one over another text, one over the EMPTY text
+				pk := append(detachSignText(signer, []byte("Other: text\n")), detachSignText(signer, nil)...)
+				data = append(append([]byte{}, armored[:sigStart]...), armorSignature(pk)...)
+				fault = "two-signature-packets-neither-over-this-text"
 				mustFail, either = true, false
 			case 6, 7, 8: // a complete signature armor whose body is empty: no signature at all
 				body := []string{"\n", "\n=twTO\n", "Version: GnuPG v2\n\n"}[fp-4*N-nSplice-6]
